@@ -539,10 +539,20 @@ def write_file(elements, groups, opt):
                 defs = pg['defs']; reps = pg['reps']; vals = pg['values']
                 n = len(defs)
                 raw = bytearray()
+                def _bit_packed_deprecated(levels, mx):
+                    # the deprecated BIT_PACKED level encoding: fixed width, values packed from the most significant bit, no length prefix
+                    w = mx.bit_length(); acc = 0; nb = 0; out = bytearray()
+                    for x in levels:
+                        acc = (acc << w) | x; nb += w
+                        while nb >= 8:
+                            out.append((acc >> (nb - 8)) & 0xFF); nb -= 8; acc &= (1 << nb) - 1
+                    if nb:
+                        out.append((acc << (8 - nb)) & 0xFF)
+                    return bytes(out)
                 if lf.max_rep > 0:
-                    raw += E.levels_v1(reps, lf.max_rep, pg.get('level_style', opt.level_style), rng)
+                    raw += _bit_packed_deprecated(reps, lf.max_rep) if pg.get('bit_packed_levels') else E.levels_v1(reps, lf.max_rep, pg.get('level_style', opt.level_style), rng)
                 if lf.max_def > 0:
-                    raw += E.levels_v1(defs, lf.max_def, pg.get('level_style', opt.level_style), rng)
+                    raw += _bit_packed_deprecated(defs, lf.max_def) if pg.get('bit_packed_levels') else E.levels_v1(defs, lf.max_def, pg.get('level_style', opt.level_style), rng)
                 enc = pg.get('encoding', 'PLAIN')
                 if enc == 'PLAIN':
                     raw += E.plain_encode(vals, lf.ptype, lf.type_length); enc_tag = ENC_PLAIN
@@ -588,7 +598,8 @@ def write_file(elements, groups, opt):
                     dp = [(1, T_I32, n), (2, T_I32, n - nn), (3, T_I32, sum(1 for r in reps if r == 0)), (4, T_I32, enc_tag), (5, T_I32, len(dl)), (6, T_I32, len(rl)), (7, T_TRUE, opt.codec != 0)]
                     hdr.append((8, T_STRUCT, dp))
                 else:
-                    dp = [(1, T_I32, n), (2, T_I32, enc_tag), (3, T_I32, ENC_RLE), (4, T_I32, ENC_RLE)]
+                    lenc = ENC_BIT_PACKED if pg.get('bit_packed_levels') else ENC_RLE
+                    dp = [(1, T_I32, n), (2, T_I32, enc_tag), (3, T_I32, lenc), (4, T_I32, lenc)]
                     if pg.get('stats') is not None:
                         mn, mx, nulls = pg['stats']
                         dp.append((5, T_STRUCT, _stats_tree(mn, mx, nulls, pg.get('stats_mode', 'new'))))
